@@ -134,9 +134,9 @@ def contracts():
       source="C08: 'elaboration groups signals into nets that are exactly the connected components of the connection graph': on normal return every net is closed "
              "under adjacency, connected (ghost parent chain to its root), nets are pairwise disjoint (one root per member), have at least two members, and every listed "
              "signal that has a neighbour is in a net; the only exception that may leave the function is InvalidConnectionError (C09: a connection loop is rejected with the corresponding error)")],
-    loops={1:Loop(invariant=OUTER, modifies=['visited','pred','nets'], ghost=['g_par','g_rank','g_root']),
-           2:Loop(invariant=WHILE, modifies=['visited','net','Q','pred'], ghost=['g_par','g_rank','g_root']),
-           3:Loop(invariant=INNER, modifies=['Q','pred'], ghost=[])},
+    loops={'in signal_list':Loop(invariant=OUTER, modifies=['visited','pred','nets'], ghost=['g_par','g_rank','g_root']),
+           'while Q':Loop(invariant=WHILE, modifies=['visited','net','Q','pred'], ghost=['g_par','g_rank','g_root']),
+           'in adjacency[u]':Loop(invariant=INNER, modifies=['Q','pred'], ghost=[])},
     ghost_init=ghost_init, ghost_hooks={'u = Q.pop()':h_visit}, abstract_lists={'nets':'keyed:obj','Q':'bag'},
     modifies=[], returns=None, property_ids=('C08','C09'), sample=_sample, native_post=_native_post, json_args=(_to_json,_from_json),
     note="adjacency is symmetric (every connect adds both directions); nets = [] is represented as {root: net}; Q as a bag; connectivity through ghost parent/rank functions")]
